@@ -137,7 +137,8 @@ pub fn run(ctx: &mut Ctx) {
         let big_limit = if ctx.quick() { k % 40 == 39 && (ctx.profile == "release" || k % 320 == 39) } else { k % 400 == 39 && (ctx.profile == "release" || k % 3200 == 39) };
         let limit: i32 = if big_limit {
             // (budgets around 2^11, 2^12, 2^16 and 2^17: counters narrower than the budget's type wrap there)
-            *r.pick(&[2047, 2048, 2049, 3000, 4097, 5000, 10000, 65535, 65536, 65537, 70000, 131073])
+            // (fuzz mode: the budgets up to 10000 only - one execution must stay fast)
+            *r.pick(if ctx.is_fuzz() { &[2047, 2048, 2049, 3000, 4097, 5000, 10000][..] } else { &[2047, 2048, 2049, 3000, 4097, 5000, 10000, 65535, 65536, 65537, 70000, 131073][..] })
         } else if k % 25 == 24 {
             1000
         } else if k % 50 == 13 {
